@@ -414,8 +414,9 @@ def rule_partial_walk(ck):
         ck.ob("mpt.partial_walk", "unwind/loop-fails-only-on-an-established-frame", not bad, f"`?` inside the loop on: {sorted(srcs)}", f.loc(h), what="one frame that cannot be resolved (a signal trampoline, a corrupted return address) makes the whole backtrace fail: not even the innermost frames are shown")
     # crossing a signal frame: glibc's __restore_rt describes every register with DW_CFA_expression; libc ships unwind
     # tables but no .debug_info, so an evaluator that is built from the DWARF unit covering the pc cannot be built there
-    ck.rule("mpt.signal_frames", "CFI expression rules (RegisterRule::Expression / ValExpression, CfaRule::Expression) are evaluated without requiring a DWARF unit that covers the pc: the signal trampoline of libc has unwind information but no unit, and the frames behind a signal handler are reachable only through its expression rules")
+    ck.rule("mpt.signal_frames", "CFI expression rules (RegisterRule::Expression / ValExpression, CfaRule::Expression) are evaluated without requiring a DWARF unit that covers the pc (the signal trampoline of libc has unwind information but no unit, and the frames behind a signal handler are reachable only through its expression rules): they go through evaluate_cfi_expression, which answers register requests from the registers handed to it (the frame being unwound) and memory requests from the thread's memory; register rules start with the CFA on the stack, the CFA rule with an empty stack")
     need_unit = []
+    sites = []
     for p_ in [f"{UCX}::new"] + list(prog.closures_of(f"{UCX}::new")) + ["debugger::debugee::dwarf::DebugInformation::evaluate_cfa"]:
         g = prog.fns.get(p_)
         if g is None:
@@ -424,8 +425,30 @@ def rule_partial_walk(ck):
         names = [c.name for c in g.calls()]
         if any(n.endswith("DebugInformation::find_unit_by_pc") for n in names) and any(n.endswith("BsUnit::evaluator") for n in names):
             need_unit.append(short(owner_fn(p_)) + ("/closure" if "closure" in p_ else ""))
+        for c in g.calls():
+            if c.name.endswith("unwind::evaluate_cfi_expression"):
+                sites.append((g, c))
     for k in sorted(set(need_unit)):
         ck.ob("mpt.signal_frames", f"{k}/cfi-expression-evaluated-without-a-dwarf-unit", False, "the evaluator is obtained from find_unit_by_pc(pc)", "src/debugger/debugee/dwarf/unwind.rs" if "UnwindContext" in k else "src/debugger/debugee/dwarf/mod.rs", what="frames behind a signal handler are not listed: the trampoline's register rules are expressions and no unit covers libc")
+    reg_sites = [(g, c) for g, c in sites if "UnwindContext" in g.path]
+    cfa_sites = [(g, c) for g, c in sites if g.path.endswith("evaluate_cfa")]
+    ck.ob("mpt.signal_frames", "register-expression-rules/evaluated-directly", len(reg_sites) == 2, f"{len(reg_sites)} sites (Expression, ValExpression)", f"{UCX}::new")
+    for n, (g, c) in enumerate(reg_sites):
+        init = expr_str(expr_of(g, c.args[2], depth=10), 8)
+        regs = expr_str(expr_of(g, c.args[3], depth=10), 6)
+        ups = g.raw.get("upvars", [])
+        def upname(txt):
+            m = re.search(r"arg1\*?\.(\d+)", txt)
+            return ups[int(m.group(1))].lstrip("*") if m and int(m.group(1)) < len(ups) else txt
+        ck.ob("mpt.signal_frames", f"register-expression-rules#{n}/start-with-the-CFA-on-the-stack", init.startswith("Option::Some(") and upname(init) == "cfa", f"initial = {init} ({upname(init)})", g.loc(c.bb))
+        ck.ob("mpt.signal_frames", f"register-expression-rules#{n}/read-the-registers-of-the-unwound-frame", upname(regs) == "registers_snap", f"registers = {regs} ({upname(regs)})", g.loc(c.bb), what="a CFI expression is evaluated over the registers already rewritten for the caller")
+    ck.ob("mpt.signal_frames", "cfa-expression-rule/evaluated-directly-with-an-empty-stack", len(cfa_sites) == 1 and expr_str(expr_of(cfa_sites[0][0], cfa_sites[0][1].args[2]), 4) == "Option::None()" and expr_str(expr_of(cfa_sites[0][0], cfa_sites[0][1].args[3]), 4) == "&arg2*" if cfa_sites else False, "", "src/debugger/debugee/dwarf/mod.rs")
+    ev = ck.anchor("debugger::debugee::dwarf::unwind::evaluate_cfi_expression")
+    evn = [c.name.rsplit("::", 1)[-1] for c in ev.calls()]
+    rr = [c for c in ev.calls() if c.name.endswith("DwarfRegisterMap::value")]
+    rm = [c for c in ev.calls() if c.name.endswith("debugger::read_memory_by_pid")]
+    ok = len(rr) == 1 and len(rm) == 1 and "arg4" in expr_str(expr_of(ev, rr[0].args[0]), 5) and expr_str(expr_of(ev, rm[0].args[0]), 4) == "arg5" and "resume_with_register" in evn and "resume_with_memory" in evn and "set_initial_value" in evn
+    ck.ob("mpt.signal_frames", "evaluate_cfi_expression/registers-and-memory-of-the-given-frame-and-thread", ok, "", ev.loc())
     ck.ob("mpt.signal_frames", "expression-rule-sites-found", True, f"{sorted(set(need_unit))}", "")
 
 
